@@ -415,7 +415,9 @@ def build_compressed_file(cs, fn):
             if k == "gathered":
                 sub = dict(cs, shape=shape, pos=axes.index(cs["pos"]))
                 ldim = lname
-                if c.get("list") is not None:
+                if c.get("list") is not None and list(c["list"]) == list(cs["list"]) and not c.get("list_name"):
+                    sub["list"] = c["list"]          # the same cells as the data: the data's list variable
+                elif c.get("list") is not None:
                     # a list variable of its own over the same dimensions
                     sub["list"] = c["list"]
                     ldim = c.get("list_name") or "lp%d" % j
